@@ -13,6 +13,7 @@ Section Data.
   Variable enc : A -> D.
   Variable dec : D -> res A.
   Variable pick_min : forall X : Type, (X -> X -> bool) -> list X -> option (X * list X).
+  Variable eof : bool.
   Hypothesis lt_swo : swo K lt.
   Hypothesis pick_ok : pick_contract pick_min.
   Hypothesis codec_ok : codec_contract A K D keyf lt enc dec.
@@ -21,10 +22,10 @@ Section Data.
   Notation wsorter := (wsorter K D).
   Notation w_spill := (w_spill K D lt pick_min).
   Notation w_add := (w_add A K D keyf lt enc pick_min).
-  Notation w_iter := (w_iter A K D keyf lt dec pick_min).
-  Notation w_advance := (w_advance A K D keyf dec).
-  Notation w_cursors := (w_cursors A K D keyf dec).
-  Notation w_merge := (w_merge A K D keyf lt dec pick_min).
+  Notation w_iter := (w_iter A K D keyf lt dec pick_min eof).
+  Notation w_advance := (w_advance A K D keyf dec eof).
+  Notation w_cursors := (w_cursors A K D keyf dec eof).
+  Notation w_merge := (w_merge A K D keyf lt dec pick_min eof).
   Notation w_close := (w_close K D).
   Notation wpaths := (wpaths K D).
   Notation wfds := (wfds K D).
@@ -126,7 +127,7 @@ Section Data.
       + intros; discriminate.
   Qed.
 
-  Lemma read_files (w : world) r w1 : w_read D w = (r, w1) -> files D w1 = files D w.
+  Lemma read_files (w : world) r w1 : w_read D eof w = (r, w1) -> files D w1 = files D w.
   Proof.
     unfold w_read. destruct (tick D CRead w) as [[e |] w0] eqn:T; intros H; inversion H; subst; apply (tick_files _ _ _ _ T).
   Qed.
@@ -176,11 +177,11 @@ Section Data.
 
   Lemma advance_files h ds (w : world) r w1 : w_advance h ds w = (r, w1) -> files D w1 = files D w.
   Proof.
-    unfold SorterWorld.w_advance. destruct (w_read D w) as [[u | x] wa] eqn:E1; apply read_files in E1.
+    unfold SorterWorld.w_advance. destruct (w_read D eof w) as [[u | x] wa] eqn:E1; apply read_files in E1.
     2: { intros H; inversion H; subst; exact E1. }
     destruct ds as [| d r0].
     - destruct (w_close_r D h wa) as [[u2 | x2] wb] eqn:E2; apply close_r_files in E2; intros H; inversion H; subst; congruence.
-    - destruct (w_read D wa) as [[u2 | x2] wb] eqn:E2; apply read_files in E2.
+    - destruct (w_read D eof wa) as [[u2 | x2] wb] eqn:E2; apply read_files in E2.
       2: { intros H; inversion H; subst; congruence. }
       destruct (dec d) as [a | x3]; [| intros H; inversion H; subst; congruence].
       destruct (keyf a) as [k | x4]; intros H; inversion H; subst; congruence.
@@ -192,10 +193,10 @@ Section Data.
     | d :: r => exists c, oc = Some c /\ wdata c = d :: r /\ wcur_ok c
     end.
   Proof.
-    unfold SorterWorld.w_advance. destruct (w_read D w) as [[u | x] wa]; [| intros H; inversion H].
+    unfold SorterWorld.w_advance. destruct (w_read D eof w) as [[u | x] wa]; [| intros H; inversion H].
     destruct ds as [| d r].
     - destruct (w_close_r D h wa) as [[u2 | x2] wb]; intros H; inversion H; reflexivity.
-    - destruct (w_read D wa) as [[u2 | x2] wb]; [| intros H; inversion H].
+    - destruct (w_read D eof wa) as [[u2 | x2] wb]; [| intros H; inversion H].
       intros H G. inversion G as [| ? ? Gd Gr]; subst.
       destruct (good_d_dec A K D keyf lt enc dec codec_ok d Gd) as (a & k & Hd & He & Hk & Hde).
       rewrite Hd, Hk in H. inversion H; subst. eexists. split; [reflexivity |]. split.
@@ -431,11 +432,11 @@ Section Data.
       rewrite Forall_forall in Gd. apply Gd. eapply Permutation_in; [exact Pm |].
       apply in_or_app. left. apply in_concat. exists c. split; assumption. }
     destruct (w_cursors (wpaths s1) w1) as [[heap | x] w2] eqn:E2; [| inversion H].
-    pose proof (cursors_f A K D keyf dec _ _ _ _ E2) as (N2 & _).
+    pose proof (cursors_f A K D keyf dec eof _ _ _ _ E2) as (N2 & _).
     destruct (cursors_data _ _ _ _ _ E2 Rg Gcs) as (Md & Hok & Fl2).
     destruct (w_merge (S (total_items K D s w)) heap w2) as [[ys3 e3] w3] eqn:E3.
-    pose proof (merge_f A K D keyf lt dec pick_min _ _ _ _ _ _ E3) as (N3 & _).
-    pose proof (merge_quiet A K D keyf lt dec pick_min _ _ _ _ _ E3) as (I3 & _).
+    pose proof (merge_f A K D keyf lt dec pick_min eof _ _ _ _ _ _ E3) as (N3 & _).
+    pose proof (merge_quiet A K D keyf lt dec pick_min eof _ _ _ _ _ E3) as (I3 & _).
     assert (Hy : ys3 = ys /\ e3 = None /\ s1 = s' /\ drop_iter D w3 = w') by (inversion H; auto).
     destruct Hy as (<- & -> & <- & <-). clear H.
     assert (Sz : (wsize heap < S (total_items K D s w))%nat).
@@ -504,9 +505,9 @@ Section Data.
       assert (Fin : forall w2, files D w2 = files D w1 -> (nx w1 <= nx w2)%nat -> DI s1 (drop_iter D w2) ds /\ walways K D s1 = true).
       { intros w2 Fl N. split; [| congruence]. eapply DI_frame; [exact D1 | exact Fl | exact N]. }
       destruct (w_cursors (wpaths s1) w1) as [[heap | x] w2] eqn:E2;
-        pose proof (cursors_files _ _ _ _ E2) as Fl2; pose proof (cursors_f A K D keyf dec _ _ _ _ E2) as (N2 & _).
+        pose proof (cursors_files _ _ _ _ E2) as Fl2; pose proof (cursors_f A K D keyf dec eof _ _ _ _ E2) as (N2 & _).
       + destruct (w_merge (S p) heap w2) as [[ys3 e3] w3] eqn:E3.
-        pose proof (merge_files _ _ _ _ _ E3) as Fl3. pose proof (merge_f A K D keyf lt dec pick_min _ _ _ _ _ _ E3) as (N3 & _).
+        pose proof (merge_files _ _ _ _ _ E3) as Fl3. pose proof (merge_f A K D keyf lt dec pick_min eof _ _ _ _ _ _ E3) as (N3 & _).
         inversion H; subst. apply Fin; [congruence | lia].
       + inversion H; subst. apply Fin; assumption.
   Qed.
@@ -515,7 +516,7 @@ Section Data.
   Notation wwriter := (wwriter A K D).
   Notation wr_add := (wr_add A K D keyf lt enc pick_min).
   Notation wr_adds := (wr_adds A K D keyf lt enc pick_min).
-  Notation wr_close := (wr_close A K D keyf lt dec pick_min).
+  Notation wr_close := (wr_close A K D keyf lt dec pick_min eof).
   Notation wsr := (ws A K D).
   Notation wout := (wout A K D).
 
@@ -600,7 +601,7 @@ Section Data.
     close_inv wr w W -> wr_close wr w = (o, wr', w') ->
     close_inv wr' w' W /\ (o = OOk -> incl (map enc W) (map enc (wout wr'))).
   Proof.
-    intros (I2 & St) H. pose proof (wr_close_WI2 A K D keyf lt dec pick_min _ _ _ _ _ I2 H) as I2'.
+    intros (I2 & St) H. pose proof (wr_close_WI2 A K D keyf lt dec pick_min eof _ _ _ _ _ I2 H) as I2'.
     unfold SorterWorld.wr_close in H. destruct (tainted K D (wsr wr)) eqn:Ht.
     { inversion H; subst. split; [split; [exact I2 | left; exact Ht] | discriminate]. }
     destruct (w_iter (wsr wr) (S (total_items K D (wsr wr) w)) w) as [[[ys e] s1] w1] eqn:E.
